@@ -22,6 +22,9 @@ func init() {
 func coreC03(tier string) []RunSpec {
 	var out []RunSpec
 	// deterministic sequential histories, one per kind, with and without watcher
+	for k := 0; k < 12; k++ { // polls and state checks landing inside an internal settlement
+		out = append(out, RunSpec{Profile: "core:internal-with-polls", Params: map[string]int{"kind": kindIdx("internal"), "watcher": 0, "pollers": 1, "k": k}})
+	}
 	for v := 1; v <= 2; v++ { // partial melt quote on the own invoice of an unpaid / an issued quote
 		out = append(out, RunSpec{Profile: "core:internal-partial", Params: map[string]int{"kind": kindIdx("internal"), "watcher": 0, "mpp": 1, "partial": v}})
 	}
@@ -265,6 +268,12 @@ func c03Internal(rc *RunCtx, user *Actor, step int) {
 			amount = 2
 		}
 	}
+	// quote polls and state checks may land inside the settlement (the quote is PENDING there and no
+	// outgoing payment exists, so the backend answers "not found")
+	pollers := !forged && !partial && !lnFail && T.Chance("int.pollers", 1, 3)
+	if v, ok := rc.Spec.Params["pollers"]; ok {
+		pollers, forged, partial, lnFail, alsoLN, mintFirst = v == 1, false, false, false, false, false
+	}
 	ambBefore := W.LN.Cfg.AmbiguousPct
 	rc.S.BeginEpisode()
 	rc.S.Go(name, W.Ext, true, func() {
@@ -307,6 +316,20 @@ func c03Internal(rc *RunCtx, user *Actor, step int) {
 		if lnFail {
 			W.LN.Cfg.InvoiceErrPct, W.LN.Cfg.AmbiguousPct = 100, 100
 		}
+		Ys := make([]string, len(ins))
+		for k, p := range ins {
+			Ys[k] = p.Y()
+		}
+		if pollers {
+			rc.S.Go(name+".poll", W.Ext, true, func() {
+				p := NewActor(W, name+".poll")
+				for k := 0; k < 3; k++ {
+					p.PollMeltQuote("A", lq.ID)
+					p.CheckState("A", Ys)
+				}
+			})
+			rc.S.Probe("c03_polls_during_internal_settlement")
+		}
 		r := a.Melt("A", lq.ID, ins)
 		if lnFail {
 			W.LN.Cfg.InvoiceErrPct, W.LN.Cfg.AmbiguousPct = 0, ambBefore
@@ -315,8 +338,22 @@ func c03Internal(rc *RunCtx, user *Actor, step int) {
 		if r.OK() {
 			user.remove("A", ins)
 		}
-		a.Mint("A", q, W.NewOutputs(Split(amount), ks.ID), "")
-		a.Mint("A", q, W.NewOutputs(Split(amount), ks.ID), "")
+		_, m1 := a.Mint("A", q, W.NewOutputs(Split(amount), ks.ID), "")
+		_, m2 := a.Mint("A", q, W.NewOutputs(Split(amount), ks.ID), "")
+		if (m1.OK() || m2.OK()) && !alsoLN && !r.OK() {
+			// the quote was issued although no Lightning payment exists and the melt was answered with an
+			// error: the only thing that can have paid it is that melt's inputs - they must be gone
+			if cs := a.CheckState("A", Ys); cs.OK() {
+				if arr, _ := cs.Body["states"].([]any); len(arr) == len(Ys) {
+					for k := range arr {
+						if st, _ := arr[k].(map[string]any)["state"].(string); st == "UNSPENT" {
+							W.Book.Violate("C03.internal_unbacked", "melt", "mint quote %s was issued on an internal settlement whose melt request failed and whose inputs are UNSPENT: nothing paid for it", short(q.ID))
+							break
+						}
+					}
+				}
+			}
+		}
 		if alsoLN && !mintFirst {
 			// the invoice is additionally paid over Lightning: a second payment
 			if W.LN.PayExternal(q.Hash) {
